@@ -93,6 +93,13 @@ def standard_check(spec, tier, seed, replay=None):
     res = Result()
     scratch = tempfile.mkdtemp(prefix="verif-%s-" % prop, dir=core.SCRATCH_BASE)
     rc = 1
+    if os.path.realpath(core.REPO) != "/repo":
+        # a run against a scratch (mutated) copy of the repository works on a private copy of the Coq development, so
+        # that the gen/*.v it regenerates from that copy (and any proof it breaks) never leak into the real tree
+        private = os.path.join(scratch, "coq")
+        with core.Lock(os.path.join(core.COQ, ".build.lock")):
+            core.sh(["rsync", "-a", "--exclude", ".build.lock", core.COQ + "/", private + "/"])
+        core.COQ = private
     try:
         rc = _check(spec, tier, seed, replay, res, scratch, t0)
     finally:
